@@ -401,3 +401,28 @@ def install(eng):
     import gwf.backends.exceptions as _bex
     for _n in ("BackendError", "TargetError", "UnsupportedOperationError"):
         eng.exc_names[_n] = getattr(_bex, _n)
+
+    # ================================================================== option resolution (C10)
+    OD = vc.Options
+    OV = T.Opt(vc.OptVal)
+
+    def chain2(a, b):
+        """dict(a) updated with b: the later dictionary wins"""
+        k = vc.OptKey.fresh("k")
+        dom = z3.Lambda([k], z3.Or(z3.Select(OD.dom(a), k), z3.Select(OD.dom(b), k)))
+        val = z3.Lambda([k], z3.If(z3.Select(OD.dom(b), k), z3.Select(OD.vals(b), k), z3.Select(OD.vals(a), k)))
+        return OD.mk(dom, val)
+
+    vc.chain2 = chain2
+    eng.fn("Chain")(lambda e, st, a, b: V(OD, chain2(a.z, b.z)))
+
+    def resolved(defaults, opts):
+        """C10: backend default < target option; keys the backend does not know are dropped, None is omitted"""
+        ch = chain2(defaults, opts)
+        k = vc.OptKey.fresh("k")
+        dom = z3.Lambda([k], z3.And(z3.Select(OD.dom(defaults), k), z3.Select(OD.dom(ch), k),
+                                    z3.Not(OV.is_none(z3.Select(OD.vals(ch), k)))))
+        return OD.mk(dom, OD.vals(ch))
+
+    eng.fn("Resolved")(lambda e, st, d, o: V(OD, resolved(d.z, o.z)))
+    eng.universe("OptKey", vc.OptKey)
